@@ -163,3 +163,9 @@ theorem relsSorted_forall₂ (σ₁ σ₂ : Schema)
 
 end Schema
 end Jsonapi
+
+namespace Jsonapi
+theorem C16_normalize_mem' (r : Rel) : r.normalize = r ∨ r.normalize = r.invert := by
+  unfold Rel.normalize; (repeat' split) <;> simp
+theorem Rel.invert_invert (r : Rel) : r.invert.invert = r := by cases r; rfl
+end Jsonapi
